@@ -4,7 +4,6 @@ Construction uses the constructors / attributes nicira.py documents (NXM entry c
 register operands, flow_mod_spec / nx_learn_* objects for learn specs, nx_match.append);
 projection reads the same public attributes back.
 """
-import pox.openflow.libopenflow_01 as of
 import pox.openflow.nicira as nx
 from pox.openflow import of_01
 from pox.lib.addresses import EthAddr, IPAddr, IPAddr6
